@@ -86,4 +86,53 @@ partial def runLoop {σ : Type} (init : σ) (step : σ → List String → σ ×
     out.putStrLn o
     runLoop init step h out s'
 
+
+/-! Well-formedness of a `looptrace` op (the real event loop end to end; monitor only): exactly what
+`verif_harness::looptrace::Scenario::parse` accepts. -/
+
+def ltNum (s : String) : Option Nat :=
+  if s.isEmpty || s.length > 9 || !s.toList.all Char.isDigit then none else s.toNat?
+
+def ltList (s : String) : Bool :=
+  let parts := s.splitOn "."
+  parts.length ≤ 4 && parts.all fun x => match ltNum x with
+    | some o => 1 ≤ o && o ≤ 9
+    | none => false
+
+def ltTriple (s : String) : Option (Nat × Nat × Nat) :=
+  match s.splitOn ":" with
+  | [a, b, c] => match ltNum a, ltNum b, ltNum c with
+    | some a, some b, some c => some (a, b, c)
+    | _, _, _ => none
+  | _ => none
+
+def ltVal (tok key : String) : Option String :=
+  if tok.startsWith (key ++ "=") then some (tok.drop (key.length + 1)).toString else none
+
+def ltReload (r : String) : Bool :=
+  match r.splitOn ":" with
+  | tr :: l :: rest =>
+    -- Rust's split_once: everything after the first ':' is the list (a second ':' makes the list ill-formed)
+    rest.isEmpty && ltList l &&
+      (if tr.startsWith "at" then (ltNum (tr.drop 2).toString).isSome
+       else if tr.startsWith "run" then (ltNum (tr.drop 3).toString).isSome
+       else false)
+  | _ => false
+
+def looptraceWellFormed (toks : List String) : Bool :=
+  match toks with
+  | [t0, t1, t2, t3, t4, t5, t6, t7] =>
+    match ltVal t0 "ips", ltVal t1 "reloads", ltVal t2 "admit2", ltVal t3 "pps", ltVal t4 "rtt",
+          ltVal t5 "nak", ltVal t6 "bh", ltVal t7 "ticks" with
+    | some ips, some rl, some ad, some pps, some rtt, some nak, some bh, some ticks =>
+      let rls := if rl == "-" then [] else rl.splitOn ","
+      ltList ips && rls.all ltReload && rls.length ≤ 4 && (ltNum ad).isSome &&
+      (match ltNum pps with | some p => 1 ≤ p && p ≤ 2000 | none => false) &&
+      (match ltNum rtt with | some r => r ≤ 2000 | none => false) &&
+      (ltTriple nak).isSome &&
+      (bh == "-" || (match ltTriple bh with | some (a, _, _) => 1 ≤ a && a ≤ 9 | none => false)) &&
+      (match ltNum ticks with | some t => 1 ≤ t && t ≤ 200 | none => false)
+    | _, _, _, _, _, _, _, _ => false
+  | _ => false
+
 end Srtla.Drv
